@@ -2,6 +2,7 @@
 package gen
 
 import (
+	"strings"
 	"fmt"
 	"math/rand"
 	"net/netip"
@@ -176,6 +177,10 @@ func (b *builder) base(o baseOpt) {
 					if o.extraEndpoints {
 						d.Addr = k.ip + ":60001"
 					}
+				case 4:
+					if c.Broadcast != "" && r.Intn(2) == 0 {
+						d.Addr = c.Broadcast // listed at the very address the client broadcasts to: an address like any other
+					}
 				}
 			}
 			if r.Intn(6) == 0 {
@@ -184,8 +189,13 @@ func (b *builder) base(o baseOpt) {
 					d.Protocol = pick(r, "udp", "tcp", "any", "")
 				}
 			}
-			if r.Intn(10) == 0 {
+			switch r.Intn(12) {
+			case 0:
 				d.Name = ""
+			case 1:
+				// a name is a label: whatever the operator typed comes back as typed
+				d.Name = pick(r, " Side door\t", "  ", "\tlab ", "Zugangskontrolle Gebäude 7 - Nordflügel, Erdgeschoss, Tür 3 (Lieferanten)",
+					"东门禁控制器东门禁控制器东门禁控制器", "Контроллер главного входа корпус", "a\x00b", "name with a very long tail "+strings.Repeat("x", 200))
 			}
 			if r.Intn(3) == 0 {
 				// door names are labels: how many there are changes nothing about what a call does
@@ -231,7 +241,9 @@ func (b *builder) args(op model.Op, serial uint32, known *ctl) model.Args {
 		}
 	case model.SetListener:
 		if r.Intn(6) == 0 && len(b.sc.Clients) > 0 {
-			if ap, err := netip.ParseAddrPort(b.sc.Clients[0].Listen); err == nil && !ap.Addr().IsUnspecified() {
+			if ap, err := netip.ParseAddrPort(b.sc.Clients[0].Listen); err == nil && r.Intn(3) == 0 {
+				a.AddrPort = fmt.Sprintf("0.0.0.0:%d", ap.Port()) // no address, the client's own listen port
+			} else if err == nil && !ap.Addr().IsUnspecified() {
 				a.AddrPort = ap.String() // the client's own listen address
 			} else if err == nil {
 				a.AddrPort = fmt.Sprintf("%s:%d", b.sc.HostIP, ap.Port())
@@ -885,9 +897,9 @@ func invalidate(r *rand.Rand, op model.Op, a *model.Args) {
 				p.Segments[pick(r, uint8(0), 4, 255)] = model.Segment{Start: model.HHmm{H: 18, M: 0}, End: model.HHmm{H: 17, M: 0}}
 			}
 		case 0:
-			p.From.Zero = true
+			p.From.Zero, p.From.ZK = true, r.Intn(4)
 		case 1:
-			p.To.Zero = true
+			p.To.Zero, p.To.ZK = true, r.Intn(4)
 		case 2:
 			delete(p.Segments, uint8(1+r.Intn(3)))
 		case 3:
@@ -1371,8 +1383,11 @@ func genC10(b *builder) {
 	}
 	cycles := 1 + b.n(3)
 	tk := engine.Task{}
+	oneq := r.Intn(3) == 0 // the application has one signal channel for its whole life, as most do
 	for i := 0; i < cycles; i++ {
-		tk.Steps = append(tk.Steps, b.listenStep(0))
+		ls := b.listenStep(0)
+		ls.SameQ = oneq && i > 0
+		tk.Steps = append(tk.Steps, ls)
 	}
 	sc.Tasks = append(sc.Tasks, tk)
 	if len(sc.Clients) > 1 && r.Intn(2) == 0 {
